@@ -1075,8 +1075,15 @@ class LoopCtx:
         self.c = ctx
         self.mem = MemView(ex, st.bytes, st.mem, st.typed)
 
+    def _alloca(self, name):
+        if name not in self.frame.allocas:
+            # the contract names a local of the function (loop counter, cursor) that the current source no longer has
+            raise OutOfReach('the loop invariant of %s refers to the local %r, which the current source does not have' % (
+                self.frame.fn.demangled, name))
+        return self.frame.allocas[name]
+
     def var(self, name, signed=None):
-        o = self.frame.allocas[name]
+        o = self._alloca(name)
         data = self.st.bytes[o.id]
         n = o.size if o.ty_bits is None else (o.ty_bits + 7) // 8
         v = self.ex._load_at(data, o, 0, n, False, self.st)
@@ -1085,7 +1092,7 @@ class LoopCtx:
         return v
 
     def ptr(self, name):
-        o = self.frame.allocas[name]
+        o = self._alloca(name)
         data = self.st.bytes[o.id]
         return self.ex._load_at(data, o, 0, self.ex.pbytes, True, self.st)
 
